@@ -8,7 +8,7 @@
 (* Every law is a predicate over `inp` and `r`; Radix is an independent    *)
 (* model of integer formatting (long division on limbs).                   *)
 (***************************************************************************)
-EXTENDS Codecs, Json, IOUtils
+EXTENDS Codecs, Calendar, Json, IOUtils
 
 Rec == ndJsonDeserialize(IOEnv.TRACE)
 VARIABLES l, viols, cnt
@@ -104,11 +104,107 @@ JsonSame(a, b) ==      \* as JsonEq but floats bit-identical (up to the sign of 
         [] a.t = "arr" -> Len(a.e) = Len(b.e) /\ \A j \in 1..Len(a.e) : JsonSame(a.e[j], b.e[j])
         [] a.t = "obj" -> DOMAIN a.m = DOMAIN b.m /\ \A f \in DOMAIN a.m : JsonSame(a.m[f], b.m[f])
         [] OTHER -> JsonEq(a, b)
+RECURSIVE JsonEq2(_, _)
+JsonEq2(a, b) ==       \* as JsonEq with floats at most two units in the last place apart (names the known deviation)
+  /\ a.t = b.t
+  /\ CASE a.t = "float" -> WithinTwoUlp(a.b, b.b)
+        [] a.t = "arr" -> Len(a.e) = Len(b.e) /\ \A j \in 1..Len(a.e) : JsonEq2(a.e[j], b.e[j])
+        [] a.t = "obj" -> DOMAIN a.m = DOMAIN b.m /\ \A f \in DOMAIN a.m : JsonEq2(a.m[f], b.m[f])
+        [] OTHER -> JsonEq(a, b)
+JsonOnlyTwoUlp(r, i) == /\ Ok(r.compact) /\ Ok(r.pretty) /\ Ok(r.serde)
+                        /\ JsonEq2(V(r.compact), i.x) /\ JsonSame(V(r.compact), V(r.pretty)) /\ JsonSame(V(r.compact), V(r.serde))
 JsonLaw(r, i) ==
   /\ Ok(r.compact) /\ JsonEq(V(r.compact), i.x)
   /\ Ok(r.pretty) /\ JsonEq(V(r.pretty), i.x)
   /\ Ok(r.serde) /\ JsonEq(V(r.serde), i.x)
   /\ JsonSame(V(r.compact), V(r.pretty)) /\ JsonSame(V(r.compact), V(r.serde))     \* "behaves the same way"
+
+
+(* ---------- C35: the embedder's conversions (results per default timezone in r) ---------- *)
+\* documented spellings of booleans (compiler/conversion): true/t/yes/y and false/f/no/n in any case, 0, non-zero integers
+Lower(c) == IF c >= 65 /\ c <= 90 THEN c + 32 ELSE c
+LowerSeq(u) == [j \in 1..Len(u) |-> Lower(u[j])]
+TrueWords == { <<116, 114, 117, 101>>, <<116>>, <<121, 101, 115>>, <<121>> }
+FalseWords == { <<102, 97, 108, 115, 101>>, <<102>>, <<110, 111>>, <<110>> }
+AllTz(r, P(_)) == \A z \in DOMAIN r : P(r[z])
+ConvLaw(r, i) ==
+  CASE i.kind = "int" -> AllTz(r, LAMBDA x : Ok(x) /\ x.v.t = "int" /\ x.v.w = i.x.w) /\ i.text.u = FormatRadix(i.x.w, 10)
+    [] i.kind = "bool" -> /\ (LowerSeq(i.text.u) \in TrueWords) = (i.expect = "true" /\ ~i.numeric)
+                          /\ (LowerSeq(i.text.u) \in FalseWords) = (i.expect = "false" /\ ~i.numeric)
+                          /\ AllTz(r, LAMBDA x : IF i.expect = "reject" THEN x.k = "err" ELSE (Ok(x) /\ x.v.t = "bool" /\ x.v.v = (i.expect = "true")))
+    [] i.kind = "float" -> AllTz(r, LAMBDA x : Ok(x) /\ x.v.t = "float" /\ (x.v.b = i.x.b \/ (FIsZero(x.v.b) /\ FIsZero(i.x.b) /\ FSign(x.v.b) = FSign(i.x.b))))
+    [] i.kind = "bytes" -> AllTz(r, LAMBDA x : Ok(x) /\ x.v.t = "bytes" /\ BytesOf(x.v) = BytesOf(i.text))
+    [] i.kind = "unknown" -> AllTz(r, LAMBDA x : x.k = "unknown")
+    \* timestamps: the text is the model's rendering of local time c at offset `off` (explicit in the text when i.zoned, else the
+    \* default zone's own fixed offset i.zones[z]); the result must be the instant the calendar model computes, under every default zone
+    [] i.kind = "ts" -> /\ i.text.u = Render(i.fmt, i.c, i.off, i.fr)
+                        /\ \A z \in DOMAIN r :
+                              LET want == ToUtc(i.c, IF i.zoned THEN i.off ELSE i.zones[z]) IN
+                              /\ Ok(r[z]) /\ r[z].v.t = "ts"
+                              /\ r[z].inst.days = want.days /\ r[z].inst.sod = want.sod /\ r[z].inst.ns = Nanos(i.fr)
+
+
+(* ---------- C29: numeric functions (integers as four 16-bit limbs, doubles as IEEE bit patterns) ---------- *)
+IntR(x) == Ok(x) /\ x.v.t = "int"
+FloatR(x) == Ok(x) /\ x.v.t = "float"
+Fb(x) == x.v.b
+AbsW(w) == IF NegativeW(w) THEN NegW(w) ELSE w            \* wraps at the minimum integer only: NegW(MIN) = MIN
+SignW(w) == IF w = Zero THEN 0 ELSE IF NegativeW(w) THEN -1 ELSE 1
+MagLtW(a, b) == LtU(AbsW(a), AbsW(b), 1)                   \* |a| < |b| as unsigned magnitudes (|MIN| = 2^63 fits unsigned)
+FZeroBits == <<0, 0, 0, 0>>
+FHalf == <<16352, 0, 0, 0>>
+FOne == <<16368, 0, 0, 0>>
+FSameNumber(a, b) == a = b \/ (FIsZero(a) /\ FIsZero(b))
+NumLaw(r, i) ==
+  CASE i.kind = "abs_int" -> IntR(r.out) /\ r.out.v.w = AbsW(i.x.w)
+    [] i.kind = "abs_float" -> FloatR(r.out) /\ Fb(r.out) = FMag(i.x.b)
+    \* truncated remainder: a = q*b + r with q the quotient rounded towards zero (given by the driver, checked here by the
+    \* identity in 64-bit arithmetic), |r| < |b| and r is zero or has the sign of a - these pin r uniquely
+    [] i.kind = "mod_int" -> /\ IntR(r.out)
+                             /\ AddW(MulW(i.q.w, i.b.w), r.out.v.w) = i.a.w
+                             /\ MagLtW(r.out.v.w, i.b.w)
+                             /\ SignW(r.out.v.w) \in {0, SignW(i.a.w)}
+    [] i.kind = "mod_float" -> /\ FloatR(r.out) /\ FIsFinite(Fb(r.out))
+                               /\ FLt(FMag(Fb(r.out)), FMag(i.b.b))
+                               /\ (FIsZero(Fb(r.out)) \/ FSign(Fb(r.out)) = FSign(i.a.b))
+    \* round / ceil / floor on integers: the value itself whatever the precision
+    [] i.kind = "round_int" -> \A n \in {"round", "ceil", "floor"} : IntR(r[n]) /\ r[n].v.w = i.x.w
+    \* precision 0 on doubles: floor <= x <= ceil, ceil - floor is 0 or 1 (the machine subtraction is exact there), round is one
+    \* of the two and within one half of x (`near` = |round - x| <= 0.5 evaluated by the machine comparison)
+    [] i.kind = "round_f0" -> /\ FloatR(r.ceil) /\ FloatR(r.floor) /\ FloatR(r.round)
+                              /\ FIsFinite(Fb(r.ceil)) /\ FIsFinite(Fb(r.floor))
+                              /\ FLe(i.x.b, Fb(r.ceil)) /\ FLe(Fb(r.floor), i.x.b)
+                              /\ FloatR(r.width) /\ (FSameNumber(Fb(r.width), FZeroBits) \/ Fb(r.width) = FOne)
+                              /\ (FSameNumber(Fb(r.width), FZeroBits) => FSameNumber(Fb(r.ceil), i.x.b))
+                              /\ (FSameNumber(Fb(r.round), Fb(r.ceil)) \/ FSameNumber(Fb(r.round), Fb(r.floor)))
+                              /\ IsBoolR(r.near) /\ r.near.v.v
+    \* precision p > 0: finite, ceil never below, floor never above, all three within 10^-p of x (`tol_*` = |f(x) - x| <= 10^-p
+    \* evaluated by the machine's subtraction and comparison against the literal bound)
+    [] i.kind = "round_fp" -> /\ FloatR(r.ceil) /\ FloatR(r.floor) /\ FloatR(r.round)
+                              /\ FIsFinite(Fb(r.ceil)) /\ FIsFinite(Fb(r.floor)) /\ FIsFinite(Fb(r.round))
+                              /\ FLe(i.x.b, Fb(r.ceil)) /\ FLe(Fb(r.floor), i.x.b)
+                              /\ IsBoolR(r.tol_ceil) /\ r.tol_ceil.v.v /\ IsBoolR(r.tol_floor) /\ r.tol_floor.v.v /\ IsBoolR(r.tol_round) /\ r.tol_round.v.v
+    \* (RoundFpRelaxed below names the deviations that stay within two units in the last place of x)
+    \* conversions agree with each other and with the radix model
+    [] i.kind = "conv_int" -> /\ IsStr(r.str) /\ U(r.str) = FormatRadix(i.x.w, 10)
+                              /\ IntR(r.parse) /\ r.parse.v.w = i.x.w
+                              /\ IntR(r.toint) /\ r.toint.v.w = i.x.w
+                              /\ FloatR(r.tofloat) /\ FloatR(r.tofloat_str) /\ Fb(r.tofloat) = Fb(r.tofloat_str)
+                              /\ (i.exact => (IntR(r.back) /\ r.back.v.w = i.x.w))
+    [] i.kind = "conv_float" -> /\ IsStr(r.str)
+                                /\ FloatR(r.parse) /\ FSameNumber(Fb(r.parse), i.x.b)
+                                /\ FloatR(r.tofloat) /\ FSameNumber(Fb(r.tofloat), i.x.b)
+                                /\ (i.integral => (IntR(r.toint) /\ FloatR(r.back) /\ FSameNumber(Fb(r.back), i.x.b)
+                                                   /\ IntR(r.toint_str) /\ r.toint_str.v.w = r.toint.v.w))
+
+\* the same statement up to the representation of doubles: ceil not below x by more than two neighbouring doubles, floor not
+\* above likewise, and the distances within 10^-p plus four units in the last place of x (`tol2_*`, evaluated by the machine)
+RoundFpRelaxed(r, i) ==
+  /\ FloatR(r.ceil) /\ FloatR(r.floor) /\ FloatR(r.round)
+  /\ FIsFinite(Fb(r.ceil)) /\ FIsFinite(Fb(r.floor)) /\ FIsFinite(Fb(r.round))
+  /\ (FLe(i.x.b, Fb(r.ceil)) \/ WithinTwoUlp(Fb(r.ceil), i.x.b))
+  /\ (FLe(Fb(r.floor), i.x.b) \/ WithinTwoUlp(Fb(r.floor), i.x.b))
+  /\ IsBoolR(r.tol2_ceil) /\ r.tol2_ceil.v.v /\ IsBoolR(r.tol2_floor) /\ r.tol2_floor.v.v /\ IsBoolR(r.tol2_round) /\ r.tol2_round.v.v
 
 (* ---------- the laws ---------- *)
 Same(a, b) == (Ok(a) /\ Ok(b) /\ V(a) = V(b))
@@ -137,6 +233,8 @@ Law(r, i, name) ==
     [] name = "merge" -> Ok(r.out) /\ DOMAIN V(r.out).m = (DOMAIN i.o.m) \cup (DOMAIN i.o2.m)
                          /\ \A f \in DOMAIN V(r.out).m : Plain(V(r.out).m[f]) = Plain(IF f \in DOMAIN i.o2.m THEN i.o2.m[f] ELSE i.o.m[f])
     \* C22 C23 C21
+    [] name = "conv" -> ConvLaw(r, i)
+    [] name = "numeric" -> NumLaw(r, i)
     [] name = "codec" -> CodecLaw(r, i)
     [] name = "cipher" -> CipherLaw(r, i)
     [] name = "ip_cipher" -> IpCipherLaw(r, i)
@@ -208,7 +306,7 @@ GrokLaw(r, i) ==
 
 Prop(name) == IF name = "dd_roundtrip" THEN "C30" ELSE IF name \in {"dd_compose", "dd_range", "dd_leaf"} THEN "C31"
               ELSE IF name = "grok" THEN "C32"
-              ELSE IF name = "codec" THEN "C22" ELSE IF name \in {"cipher", "ip_cipher"} THEN "C23" ELSE IF name = "json_roundtrip" THEN "C21"
+              ELSE IF name = "conv" THEN "C35" ELSE IF name = "numeric" THEN "C29" ELSE IF name = "codec" THEN "C22" ELSE IF name \in {"cipher", "ip_cipher"} THEN "C23" ELSE IF name = "json_roundtrip" THEN "C21"
               ELSE IF name \in {"kv_roundtrip", "csv_roundtrip"} THEN "C24"
               ELSE IF name \in {"inverse", "inverse_obj", "format_int"} THEN "C25" ELSE "C28"
 
@@ -223,7 +321,9 @@ Where(name, fn, i) ==
     [] name = "kv_roundtrip" /\ ObjHasChar(i.o, {34, 61, 58, 44, 9, 32}) -> fn \o ":quote-delimiter-or-whitespace"
     [] name = "csv_roundtrip" /\ ArrHasChar(i.a, {92, 10, 34}) -> fn \o ":backslash-newline-or-quote"
     [] name \in {"dd_roundtrip", "dd_range", "dd_leaf", "grok"} -> i.shape
-    [] name \in {"codec", "cipher", "ip_cipher", "json_roundtrip"} -> fn \o ":" \o i.shape
+    [] name = "json_roundtrip" -> fn \o ":" \o (IF JsonOnlyTwoUlp(Ev.r, i) THEN "float-off-by-two-ulp" ELSE i.shape)
+    [] name = "numeric" -> fn \o ":" \o (IF i.kind = "round_fp" /\ RoundFpRelaxed(Ev.r, i) THEN "precision>0:within-two-ulp-of-the-statement" ELSE i.shape)
+    [] name \in {"codec", "cipher", "ip_cipher", "conv"} -> fn \o ":" \o i.shape
     [] OTHER -> fn
 
 Panics(r) == \E n \in DOMAIN r : r[n].k = "panic"
